@@ -1,7 +1,7 @@
 SPECIFICATION Spec
 CONSTANTS
-  Calls = {1, 2}
-  MaxT = 3
+  Calls = {1, 2, 3}
+  MaxT = 1
   Timeouts = {1, 2}
   Mux = TRUE
   FixPreOpen = TRUE
